@@ -191,6 +191,12 @@ def classify(msg):
     return 'other'
 
 
+RESULT_FORMAT = 'r3'
+# canary files: every function is expected to fail; no second pass for recommends diagnostics, and enough resources
+# for the solver to report the failing `assert(false)` itself instead of giving up
+CANARY_ARGS = ('--no-auto-recommends-check', '--rlimit', '40')
+
+
 def run_verus(path, extra=(), timeout=1800, multiple_errors=8):
     t0 = time.time()
     cmd = ['verus', path, '--output-json', '--time', '--error-format=json', '--multiple-errors', str(multiple_errors), '--num-threads', '4'] + list(extra)
@@ -259,7 +265,10 @@ def verify_unit(unit, digit, mode, canary=False, use_cache=True):
     text, linemap = g.render(unit, canary=canary)
     # second-level cache keyed by the generated text: a change in /repo that does not reach this
     # unit's generated file (its own bodies and the signatures/contracts of its stubs) re-uses the result
-    chash = sha(text, json.dumps(g.problems, default=str), open(os.path.abspath(__file__), 'rb').read())
+    # keyed by what determines the result: the generated text, the verifier's command line and the version of the
+    # result format below (bump RESULT_FORMAT when the parsing/classification in this file changes)
+    vargs = CANARY_ARGS if canary else ()
+    chash = sha(text, json.dumps(g.problems, default=str), RESULT_FORMAT, ' '.join(vargs))
     cdir2 = os.path.join(BUILD, 'cache', 'by_content')
     os.makedirs(cdir2, exist_ok=True)
     cpath2 = os.path.join(cdir2, f'{tag}_{chash[:24]}.json')
@@ -280,7 +289,7 @@ def verify_unit(unit, digit, mode, canary=False, use_cache=True):
         os.makedirs(vdir, exist_ok=True)
         path = os.path.join(vdir, tag + '.rs')
         open(path, 'w').write(text)
-        res = run_verus(path, multiple_errors=(200 if canary else 8))
+        res = run_verus(path, extra=vargs, multiple_errors=(200 if canary else 8))
         own = [it for it in g.items if it.entry.unit == unit and it.kind in ('fn', 'const', 'proof') and not getattr(it, 'assumed', False) and not getattr(it, 'lifted', False)]
         lifted_keys = sorted({it.key for it in g.effective_items(unit) if it.kind == 'fn' and getattr(it, 'lifted', False)})
         eff = g.effective_items(unit)
